@@ -13,4 +13,10 @@ cd $V/harness || exit 2
 if ! $GO build -overlay $V/.build/ov/overlay.json -o $V/.build/verifsim ./cmd/verifsim 2>$V/.build/build.log; then
   cat $V/.build/build.log >&2; echo "build: FAILED (exit 2, not a violation)" >&2; exit 2
 fi
+if [ "${VERIF_RACE:-0}" = "1" ]; then
+  # second build for C40: the same program with the race detector
+  if ! $GO build -race -overlay $V/.build/ov/overlay.json -o $V/.build/verifsim-race ./cmd/verifsim 2>$V/.build/build-race.log; then
+    cat $V/.build/build-race.log >&2; echo "build (race): FAILED (exit 2, not a violation)" >&2; exit 2
+  fi
+fi
 exit 0
